@@ -31,6 +31,27 @@ struct Worker {
     saw_full: bool,
 }
 
+/// A buffer whose `parts_mut` — called by a10 while it fills the submission, under the
+/// submission lock — panics once when armed.
+struct PanicBuf(Vec<u8>);
+static PANIC_ARMED: std::sync::atomic::AtomicBool = std::sync::atomic::AtomicBool::new(false);
+
+// SAFETY: forwards to `Vec<u8>`.
+unsafe impl a10::io::BufMut for PanicBuf {
+    unsafe fn parts_mut(&mut self) -> (*mut u8, u32) {
+        if PANIC_ARMED.swap(false, std::sync::atomic::Ordering::SeqCst) {
+            panic!("buffer implementation panics while the submission is being filled");
+        }
+        unsafe { a10::io::BufMut::parts_mut(&mut self.0) }
+    }
+    unsafe fn set_init(&mut self, n: usize) {
+        unsafe { a10::io::BufMut::set_init(&mut self.0, n) }
+    }
+    fn spare_capacity(&self) -> u32 {
+        a10::io::BufMut::spare_capacity(&self.0)
+    }
+}
+
 type OpFut = std::pin::Pin<Box<dyn std::future::Future<Output = std::io::Result<Vec<u8>>> + Send>>;
 
 /// Operations started (and taken by the kernel) before the script begins.
@@ -389,6 +410,9 @@ impl Case for SqCase {
         let w_kernel = if pending > 0 { 3 } else { 1 };
         let w_again = if finished.is_empty() { 0 } else { 2 };
         let w_bad = if rng.chance(1, 40) { 1 } else { 0 };
+        if rng.chance(1, 30) {
+            return Some("sq panicfill".into());
+        }
         if rng.chance(if pending > 0 { 1 } else { 0 }, 6) || rng.chance(1, 40) {
             return Some("sq enter".into());
         }
@@ -534,6 +558,41 @@ impl Case for SqCase {
                     self.feats.push("enter-wakes-kernel-thread".into());
                 }
                 vec![format!("enter {ts} consumed {} {}", if names.is_empty() { "-".to_string() } else { names.join(",") }, self.state_line())]
+            }
+            ["sq", "panicfill"] => {
+                // The controller thread starts an operation whose buffer panics while a10 fills the
+                // submission (slot reset, lock held): unwinding has to leave the queue as it was —
+                // nothing published, the lock released. (Refused while a submitter holds the lock:
+                // the controller would spin for ever.)
+                let locked = self.workers.iter().any(|w| w.done.is_none() && matches!(self.pc_name(w).as_str(), "at-ld-head2" | "at-ld-tail2" | "at-st-tail"));
+                let (h0, t0) = simk::with_ring(self.rfd, |r, _| (r.sq_head(), r.sq_tail()));
+                if locked || t0.wrapping_sub(h0) >= self.len {
+                    return vec!["bad-op".into()];
+                }
+                let fd = self.op_fd.unwrap();
+                PANIC_ARMED.store(true, std::sync::atomic::Ordering::SeqCst);
+                sched::uninstall();
+                let r = util::catch(std::panic::AssertUnwindSafe(|| {
+                    let mut f = Box::pin(fd.read(PanicBuf(Vec::with_capacity(8))));
+                    let w = util::waker(779);
+                    let mut cx = std::task::Context::from_waker(&w);
+                    let _ = std::future::Future::poll(f.as_mut(), &mut cx);
+                }));
+                sched::install_keep();
+                PANIC_ARMED.store(false, std::sync::atomic::Ordering::SeqCst);
+                let (h1, t1) = simk::with_ring(self.rfd, |r, _| (r.sq_head(), r.sq_tail()));
+                if r.is_ok() {
+                    self.oracle.push(("C04".into(), "C04/panicfill/no-panic".into(), "the buffer's panic did not propagate out of the poll".into()));
+                }
+                if t1 != t0 || h1 != h0 {
+                    self.oracle.push(("C04".into(), "C04/published-by-unwinding".into(), format!("a panic while the submission was being filled moved the queue's tail from {t0} to {t1}: the kernel is handed a reset, partially written entry")));
+                }
+                self.feats.push("panic-while-filling".into());
+                // the free slot holds a partially written entry (the model's `none`): shown as reset
+                if t1 == t0 {
+                    simk::with_ring(self.rfd, |r, _| r.clear_sqe(t0));
+                }
+                vec![format!("panicfill {}", self.state_line())]
             }
             ["sq", "again", i, e] => {
                 let (Ok(i), Ok(e)) = (i.parse::<usize>(), e.parse::<u64>()) else { return vec!["bad-op".into()] };
